@@ -95,6 +95,26 @@ def strip_recv(tr):
     return [l for l in tr if not re.match(r"^RECV timeout=-?\d+ -> \d+$", l)]
 
 
+def setup(tag="c14"):
+    """Private copies of the harness / model executables (other checks rebuild the shared ones concurrently)."""
+    import os
+    import shutil
+    for san in ("asan", "ubsan"):
+        k = "rtr_run_" + san
+        R._EXE[k] = vlib.build_harness("%s_%s" % (k, tag), os.path.join(vlib.VERIF, "harness", "rtr_run.c"),
+                                       includes_repo_c=("rtrlib/spki/hashtable/ht-spkitable.c",),
+                                       wraps=("lrtr_get_monotonic_time", "sleep"), san=san)
+    exe = vlib.build_model()
+    mine = exe + "_" + tag
+    try:
+        if not os.path.exists(mine) or os.path.getmtime(mine) < os.path.getmtime(exe) or os.path.getsize(mine) != os.path.getsize(exe):
+            shutil.copy2(exe, mine + ".tmp")
+            os.replace(mine + ".tmp", mine)
+        R._EXE["model"] = mine
+    except OSError:
+        R._EXE["model"] = exe
+
+
 def run_both(lines, timeout=60):
     rc, impl = R.run_impl(lines, timeout=timeout)
     rc2, model = R.run_model(lines)
@@ -281,20 +301,7 @@ def check_reports(s, data):
             if not located:
                 continue
             # the offender really is of that class
-            good = {
-                "len_small": ln < 8,
-                "len_big": ln > MAX,
-                "len_type": 8 <= ln <= MAX and not size_ok(data[C - ln:C]) if C - ln >= 0 else False,
-                "version": enc[0] != raw[0],
-                "unexp_sync": enc[1] not in (3, 8, 10, 0),
-                "unexp_store": enc[1] not in (4, 6, 9, 7, 10, 0),
-                "pfx_len": enc[1] in (4, 6) and len(enc) > 10 and max(enc[9], enc[10]) > (32 if enc[1] == 4 else 128),
-                "flags_pfx": enc[1] in (4, 6) and len(enc) > 8 and enc[8] not in (0, 1),
-                "flags_key": enc[1] == 9 and enc[2] not in (0, 1),
-                "dup": enc[1] in (4, 6, 9) and (enc[2] if enc[1] == 9 else enc[8]) == 1,
-                "unknown": enc[1] in (4, 6, 9) and (enc[2] if enc[1] == 9 else enc[8]) == 0,
-                "eod_session": enc[1] == 7,
-            }.get(c, True)
+            good = offender_is(c, enc, raw, data, C, ln)
             if c == "eod_session" and good:
                 m = EOD_RE.match(e["text"])
                 good = int(m.group(2)) == be16(enc, 2) and int(m.group(1)) != int(m.group(2))
@@ -305,6 +312,36 @@ def check_reports(s, data):
                          "not a byte-exact prefix of the PDU just read, or the offender is not of class %s"
                          % (e["code"], e["text"][:60], len(enc), enc[:12].hex(), "/".join(cls)))
     return probs
+
+
+def offender_is(c, enc, raw, data, C, ln):
+    """is the encapsulated PDU really an instance of violation class c?"""
+    flag = (enc[2] if enc[1] == 9 else enc[8]) if len(enc) > 8 else None
+    if c == "len_small":
+        return ln < 8
+    if c == "len_big":
+        return ln > MAX
+    if c == "len_type":
+        return 8 <= ln <= MAX and C - ln >= 0 and not size_ok(data[C - ln:C])
+    if c == "version":
+        return enc[0] != raw[0]
+    if c == "unexp_sync":
+        return enc[1] not in (3, 8, 10, 0)
+    if c == "unexp_store":
+        return enc[1] not in (4, 6, 9, 7, 10, 0)
+    if c == "pfx_len":
+        return enc[1] in (4, 6) and len(enc) > 10 and max(enc[9], enc[10]) > (32 if enc[1] == 4 else 128)
+    if c == "flags_pfx":
+        return enc[1] in (4, 6) and flag not in (0, 1, None)
+    if c == "flags_key":
+        return enc[1] == 9 and flag not in (0, 1, None)
+    if c == "dup":
+        return enc[1] in (4, 6, 9) and flag == 1
+    if c == "unknown":
+        return enc[1] in (4, 6, 9) and flag == 0
+    if c == "eod_session":
+        return enc[1] == 7
+    return True
 
 
 def sent_reports(s):
@@ -442,7 +479,7 @@ def scenarios(rnd, tier="quick"):
                         cur = 1 if phase == "first" else ver
                         if bv == cur or (phase == "first" and bv == 0):
                             continue
-                        bad = bytes([bv]) + base[1:]
+                        bad = (bytes([bv]) + base[1:])[:8]      # only the header is consumed; the state is not changed
                         add("version", ver, phase, pre, bad, exp_ver=cur, note="type %d version %d" % (typ, bv))
         # nested lengths of an Error Report at the boundaries: rejected, and never answered by a report
         for phase, pre in places:
@@ -456,7 +493,7 @@ def scenarios(rnd, tier="quick"):
         # 5 Cache Response of another session (only once a session exists)
         for d in (1, -1, 0x8000):
             bad = R.cache_response(ver, (sess + d) & 0xffff)
-            add("cr_session", ver, "serial", b"", bad, post=end, note="session %+d" % d)
+            add("cr_session", ver, "serial", b"", bad, note="session %+d" % d)
         # 6 a PDU that cannot start an answer
         for phase in ("first", "serial"):
             for typ in (1, 2, 4, 6, 7, 9):
@@ -466,7 +503,7 @@ def scenarios(rnd, tier="quick"):
         for phase, pre in places[1:]:
             for typ in (1, 2, 3, 8):
                 bad = well_formed(ver, typ, sess, serial + 1)
-                add("unexp_store", ver, phase, pre, bad, post=end, note="type %d" % typ)
+                add("unexp_store", ver, phase, pre, bad, note="type %d" % typ)
         # 8 prefix lengths beyond the address size
         for phase, pre in places[1:]:
             for fam, w in (("4", 32), ("6", 128)):
@@ -474,7 +511,7 @@ def scenarios(rnd, tier="quick"):
                     rec = (fam, "0" * w, ln, mx, 64512)
                     for fl in (0, 1, 2):
                         bad = R.prefix_pdu(ver, rec, fl)
-                        add("pfx_len", ver, phase, pre, bad, post=end, note="ipv%s %d-%d flags %d" % (fam, ln, mx, fl))
+                        add("pfx_len", ver, phase, pre, bad, note="ipv%s %d-%d flags %d" % (fam, ln, mx, fl))
         # 9 invalid flags
         for phase, pre in places[1:]:
             for it in EXTRA:
